@@ -421,7 +421,7 @@ PROPS = {
         "level": "proof",
         "extract": ["IdlGrammar", "SigGrammar", "IdlPackage"],
         "extra_modules": ["QiVerif.Lemmas.Idl", "QiVerif.Lemmas.IdlLines", "QiVerif.Props.C18Lines", "QiVerif.Props.C18Scope",
-                          "QiVerif.Props.C18Package", "QiVerif.Tie.C18Package"],
+                          "QiVerif.Props.C18Package", "QiVerif.Tie.C18Package", "QiVerif.Props.C18TypeSet", "QiVerif.Tie.C18TypeSet"],
         "rule": "type texts (600, thorough 6000: nested Vec / Map / Tuple over the 15 basic keywords, declared, undeclared and "
                 "template-named references, near-keywords such as strx / int7 / anything, empty and broken texts, white "
                 "space inside) wrapped into a package with three struct declarations and parsed by idl.ParseIDL: the "
@@ -435,7 +435,10 @@ PROPS = {
                 "declared structs - themselves and each other included -, to interfaces, enums and names nobody declares; "
                 "duplicate names, a struct named like an interface, comments after every line, a missing end, trailing "
                 "garbage, extra white space) parsed by idl.ParsePackage: every declaration with its Signature() / MetaObject() "
-                "is compared with the package parser and the scope resolution of the model; 150 "
+                "is compared with the package parser and the scope resolution of the model; 150 (1500) groups of 1-2 generated "
+                "meta-objects - a third with struct names that clash with each other or with the name of an interface - go through "
+                "GenerateIDL: the text is compared byte for byte with the one the model of the type set and the printers writes "
+                "(idl.gen), and read back: same signatures, or with clashes the same layouts; 150 "
                 "(thorough 1500) generated meta-objects (1-2 interfaces; methods with named parameters, signals, "
                 "properties; nested containers, tuples, structs shared between actions, template struct names) go "
                 "through GenerateIDL and ParseIDL and must come back with the same action ids, names and signatures; "
@@ -444,8 +447,10 @@ PROPS = {
             "the theorems cover the type layer (parse_print, signature_survives), the action lines and interface blocks "
             "(action_ok, interface_roundtrip), the struct blocks, the header and the package (struct_ok, parsePackage_printPkg), the "
             "resolution of references in the scope (resolve_total: it ends on every scope; resolve_declared) and their "
-            "composition (meta_object_roundtrip); the collection of the structs of a meta-object into the type set (RegisterTo, "
-            "ResolveCollision: renaming on name clashes) is not modelled: it is compared by the round-trip oracle idl.rt",
+            "composition (meta_object_roundtrip), and the way from the meta-objects to the blocks: the type set with its renaming on "
+            "name clashes (reg, genItfs; reg_fam, genItfs_fam: without clashes nothing is renamed) up to generateIDL_roundtrip; "
+            "with clashes the theorem does not apply (names change): the text is compared byte for byte with the model (idl.gen) and "
+            "the layouts with the round-trip oracle",
             "template struct names (Name<T>) are outside the class of the theorems and exercised by the correspondence only",
             "totality of the real parser is sampled (fuzzing in child processes); the model's parser is total by construction",
         ],
